@@ -108,6 +108,8 @@ def build_value(spec, Namespace):
             return tuple(build_value(x, Namespace) for x in spec["__tuple__"])
         if "__dict__" in spec:
             return {k: build_value(x, Namespace) for k, x in spec["__dict__"].items()}
+        if "__idict__" in spec:  # a dict with non-string keys (JSON cannot hold them as an object)
+            return {k: build_value(x, Namespace) for k, x in spec["__idict__"]}
         if "__ns__" in spec:
             ns = Namespace()
             for k, x in spec["__ns__"].items():
@@ -134,6 +136,8 @@ def model_value(spec):
             return tuple(model_value(x) for x in spec["__tuple__"])
         if "__dict__" in spec:
             return {k: model_value(x) for k, x in spec["__dict__"].items()}
+        if "__idict__" in spec:
+            return {k: model_value(x) for k, x in spec["__idict__"]}
         if "__ns__" in spec:
             return B((k, model_value(x)) for k, x in spec["__ns__"].items())
     return spec
@@ -540,6 +544,74 @@ def observe(ns, model, tier, J):
         want = canon_model(m_expand(m_as_dict(model)))
         if got is not _MISSING and canon_impl(got, Namespace) != want:
             dev("dict_to_namespace(as_dict)", f"{got!r}")
+    # conversion from a caller-owned dictionary: the dictionary this state stands for, built independently of
+    # as_dict(); judged on every state (dict-valued leaves included)
+    devs += check_conversion(_spec_of(m_as_dict(model)), J)
+    if canon_impl(ns, Namespace) != cm:
+        dev("observer-mutated-state", "an observer changed the namespace")
+    return devs
+
+
+def _mutate_all(x, Namespace):
+    """Write into every mutable container reachable from x (through the public API for namespaces)."""
+    for c in containers(x, Namespace, []):
+        try:
+            if isinstance(c, list):
+                c.append("mut")
+            else:
+                c["mut"] = 1
+        except Exception:
+            pass
+
+
+def check_conversion(src_spec, J):
+    """dict_to_namespace on one caller-owned dictionary `src` (given as a spec, built fresh here).
+
+    Judged: the result is the model's expansion (every str-keyed dict, also directly inside a list, becomes a
+    branch; everything else stays); the source dictionary is left exactly as it was; the result holds none of the
+    source's mutable containers; its as_dict() equals the source again; a second conversion of the SAME
+    dictionary object gives an equal namespace that shares nothing with the first one, and writing into every
+    container of the first result changes neither the source nor the second result."""
+    Namespace = J.Namespace
+    devs = []
+    src = build_value(src_spec, Namespace)
+    src_model = model_value(src_spec)
+    pre = canon_impl(src, Namespace)
+    want = canon_model(m_expand(src_model))
+    try:
+        first = J.dict_to_namespace(src)
+    except Exception as ex:
+        return [(f"dict_to_namespace:raises-{type(ex).__name__}", repr(ex))]
+    if canon_impl(first, Namespace) != want:
+        devs.append(("dict_to_namespace:wrong-result", f"{first!r} from {src!r}"))
+    if canon_impl(src, Namespace) != pre:
+        devs.append(("dict_to_namespace:mutates-input", f"input is now {src!r}"))
+        return devs
+    src_ids = {id(c) for c in containers(src, Namespace, [])}
+    if any(id(c) in src_ids for c in containers(first, Namespace, [])):
+        devs.append(("dict_to_namespace:result-shares-containers-with-input", f"{first!r}"))
+    try:
+        back = first.as_dict()
+        if canon_impl(back, Namespace) != canon_model(m_as_dict(m_expand(src_model))):
+            devs.append(("dict_to_namespace:as_dict-differs-from-input", f"{back!r} from {src!r}"))
+    except Exception as ex:
+        devs.append((f"dict_to_namespace:as_dict-raises-{type(ex).__name__}", repr(ex)))
+    try:
+        second = J.dict_to_namespace(src)
+    except Exception as ex:
+        devs.append((f"dict_to_namespace:second-conversion-raises-{type(ex).__name__}", repr(ex)))
+        return devs
+    if canon_impl(second, Namespace) != want:
+        devs.append(("dict_to_namespace:second-conversion-differs", f"{second!r} from {src!r}"))
+        return devs
+    first_ids = {id(c) for c in containers(first, Namespace, [])}
+    if any(id(c) in first_ids for c in containers(second, Namespace, [])):
+        devs.append(("dict_to_namespace:conversions-share-containers", f"{second!r}"))
+    _mutate_all(first, Namespace)
+    if canon_impl(src, Namespace) != pre:
+        devs.append(("dict_to_namespace:result-not-independent-of-input", f"input is now {src!r}"))
+    if canon_impl(second, Namespace) != want:
+        devs.append(("dict_to_namespace:conversions-not-independent", f"second is now {second!r}"))
     return devs
 
 
@@ -547,6 +619,8 @@ def _spec_of(x):
     if isinstance(x, B):
         return {"__ns__": {k: _spec_of(v) for k, v in x.items()}}
     if isinstance(x, dict):
+        if not all(isinstance(k, str) for k in x):
+            return {"__idict__": [[k, _spec_of(v)] for k, v in x.items()]}
         return {"__dict__": {k: _spec_of(v) for k, v in x.items()}}
     if isinstance(x, list):
         return [_spec_of(v) for v in x]
@@ -632,10 +706,100 @@ def expand_state(arg):
     return out
 
 
+# ------------------------------------------------------------------------------------------------
+# conversion inputs: dictionaries that need not be the as_dict() image of any reachable namespace
+
+CONV_LEAVES = [1, None, [1], [], {"__tuple__": [1]}, {"__idict__": [[1, 2]]}, {"__dict__": {}}]
+CONV_KEYSETS = [["a"], ["items"], ["a", "items"]]
+
+
+def conv_dicts(depth):
+    """All dictionary specs of nesting depth <= `depth`: keys `a` / `items` / both; a value is a leaf, a
+    dictionary one level shallower, or such a dictionary as the only element of a list, behind a scalar in a list,
+    inside a nested list, or inside a tuple.  With two keys the second value ranges over the leaves and the
+    one-key wrappers of the same shallower dictionaries are dropped (keeps the growth quadratic, not quartic)."""
+    if depth == 0:
+        return []
+    inner = conv_dicts(depth - 1)
+    wrapped = []
+    for d in inner:
+        wrapped += [d, [d], [1, d], [[d]], {"__tuple__": [d]}]
+    vals = CONV_LEAVES + wrapped
+    out = []
+    for v in vals:
+        out.append({"__dict__": {"a": v}})
+        out.append({"__dict__": {"items": v}})
+        for w in CONV_LEAVES:
+            out.append({"__dict__": {"a": v, "items": w}})
+    # two dictionaries side by side in one list / under two keys (sharing between siblings)
+    for d in inner[: len(CONV_LEAVES) * 2]:
+        out.append({"__dict__": {"a": [d, d], "items": d}})
+    return out
+
+
+def conv_worker(specs):
+    J = _J()
+    out = []
+    for spec in specs:
+        out.append((spec, check_conversion(spec, J)))
+    return out
+
+
+def conv_run(ctx, depth, totals):
+    import json
+
+    specs = conv_dicts(depth)
+    seen = set()
+    uniq = []
+    for sp in specs:
+        k = json.dumps(sp)
+        if k not in seen:
+            seen.add(k)
+            uniq.append(sp)
+    uniq.sort(key=lambda sp: (len(json.dumps(sp)), json.dumps(sp)))  # simplest first
+    chunks = [uniq[i : i + 200] for i in range(0, len(uniq), 200)]
+    with_list_of_dicts = 0
+    for res in ctx.pmap(conv_worker, chunks):
+        for spec, devs in res:
+            totals["conv_inputs"] += 1
+            if _has_list_of_dicts(spec):
+                with_list_of_dicts += 1
+            for sig, detail in devs:
+                ctx.deviation(sig, {"tier": "conv", "input": spec}, detail)
+    for sp in uniq[:2] + uniq[len(uniq) // 2 :][:2]:
+        ctx.sample({"alphabet": "conv", "input": sp})
+    totals["conv_with_list_of_dicts"] = with_list_of_dicts
+    totals["runs"].append(
+        {
+            "alphabet": "conv",
+            "what": "dict_to_namespace on caller-owned dictionaries (result, source untouched, independence, "
+            "as_dict round trip, repeated conversion)",
+            "nesting_depth": depth,
+            "inputs": len(uniq),
+            "inputs_with_a_list_holding_a_dict": with_list_of_dicts,
+            "leaves": CONV_LEAVES,
+        }
+    )
+
+
+def _has_list_of_dicts(spec):
+    if isinstance(spec, list):
+        return any(isinstance(x, dict) and "__dict__" in x for x in spec) or any(_has_list_of_dicts(x) for x in spec)
+    if isinstance(spec, dict):
+        for tag in ("__dict__",):
+            if tag in spec:
+                return any(_has_list_of_dicts(x) for x in spec[tag].values())
+        if "__tuple__" in spec:
+            return any(_has_list_of_dicts(x) for x in spec["__tuple__"])
+    return False
+
+
 def run_case(case):
-    """Replay one case: {"tier":..., "history": [ops...], "op": op or None}."""
+    """Replay one case: {"tier":..., "history": [ops...], "op": op or None} or {"tier": "conv", "input": spec}."""
     J = _J()
     tier = case["tier"]
+    if tier == "conv":
+        return [{"signature": s, "detail": d} for s, d in check_conversion(case["input"], J)]
     history = case["history"]
     devs = []
     if case.get("op") is not None:
@@ -722,15 +886,17 @@ def explore(ctx):
         if ctx.quick
         else [("small", 4, 10**9), ("large", 2, 10**9), ("clash", 2, 10**9)]
     )
-    totals = {"states": 0, "transitions": 0, "nontrivial": 0, "max_history": 0, "runs": []}
+    totals = {"states": 0, "transitions": 0, "nontrivial": 0, "max_history": 0, "runs": [], "conv_inputs": 0}
     caps = []
     for alpha, depth, cap in plan:
         caps += bfs(ctx, alpha, depth, cap, totals)
+    conv_run(ctx, 2 if ctx.quick else 3, totals)
     ctx.cover(
         states=totals["states"],
         transitions=totals["transitions"],
         traces_validated_against_impl=totals["transitions"],
-        evaluations=totals["transitions"] + totals["states"],
+        evaluations=totals["transitions"] + totals["states"] + totals["conv_inputs"],
+        conversion_inputs=totals["conv_inputs"],
         distinct_nontrivial=totals["nontrivial"],
         rule="a case is one transition (state, operation) executed on the real Namespace and on the model, or the "
         "full observer sweep on one state; distinct_nontrivial = number of distinct non-empty canonical states reached",
@@ -744,3 +910,5 @@ def explore(ctx):
     ctx.require(totals["states"] > 500, "more than 500 states explored")
     ctx.require(totals["nontrivial"] > 100, "more than 100 distinct non-empty states")
     ctx.require(totals["max_history"] >= 2, "states at depth >= 2 reached")
+    ctx.require(totals["conv_inputs"] > 1000, "more than 1000 conversion inputs")
+    ctx.require(totals.get("conv_with_list_of_dicts", 0) > 100, "more than 100 conversion inputs hold a dict inside a list")
